@@ -26,7 +26,7 @@ From Coq Require String.
 Import ListNotations String.StringSyntax.
 Delimit Scope string_scope with str.
 From PV Require Import Generated.Reject Generated.SkyMask Generated.MaskInterp.
-From PV Require Import C17.Model C17.ProofsDilate C17.ProofsReject C17.ProofsInterp C17.ProofsAxis C17.ProofsLines C17.ProofsMedian C17.ProofsSky.
+From PV Require Import C17.Model C17.ProofsDilate C17.ProofsReject C17.ProofsInterp C17.ProofsAxis C17.ProofsLines C17.ProofsMedian C17.ProofsMedian2 C17.ProofsSky.
 Open Scope Q_scope.
 
 (* ================================================================ dilation *)
@@ -319,6 +319,16 @@ Theorem C17_median_reflect_total : forall (xs : list Z) (w : Z), (1 <= w)%Z -> x
   median_reflect_model xs w = median_reflect_total_spec xs w.
 Proof. exact median_reflect_model_total. Qed.
 Print Assumptions C17_median_reflect_total.
+
+(* 2-D: padding the image with its reversed borders and corners, medfilt2d and cutting the middle out (M) is the
+   median over the width x width box of the image reflected in both directions (S); even widths and images with
+   fewer than ceil(width/2) rows or columns are ValueError in both (rectangular images) *)
+Theorem C17_median2_reflect_total : forall (rows : list (list Z)) (w : Z), (1 <= w)%Z ->
+  (w <= Z.of_nat (length rows) * Z.of_nat (length (hd [] rows)))%Z ->
+  (forall r, In r rows -> length r = length (hd [] rows)) ->
+  median_reflect2_model rows w = median_reflect2_total_spec rows w.
+Proof. exact median_reflect2_model_total. Qed.
+Print Assumptions C17_median2_reflect_total.
 
 (* S's reflection repeats the edge sample: -1-j on the left, 2n-1-j on the right *)
 Theorem C17_reflect_is_symmetric : forall n j : Z, (0 < n)%Z -> (- n <= j < 2 * n)%Z ->
